@@ -242,11 +242,41 @@ fn send_request_failed_error(
 
 /// The analyzer reports byte offsets, but LSP positions are measured in
 /// UTF-16 code units, which differ as soon as a line contains non-ASCII text.
-fn byte_index_to_utf16_column(line: &str, byte_index: usize) -> u32 {
-    line.char_indices()
-        .take_while(|(index, _)| *index < byte_index)
-        .map(|(_, ch)| ch.len_utf16() as u32)
-        .sum()
+///
+/// This maps every byte offset of a line (including the one just past its end)
+/// to its UTF-16 column, so that converting all the tokens of a long line
+/// takes linear rather than quadratic time. An offset inside a character maps
+/// to the column just past that character.
+struct Utf16Columns {
+    /// `None` if the line is pure ASCII, in which case offsets are columns.
+    columns: Option<Vec<u32>>,
+}
+
+impl Utf16Columns {
+    fn new(line: &str) -> Self {
+        if line.is_ascii() {
+            return Utf16Columns { columns: None };
+        }
+        let mut columns = Vec::with_capacity(line.len() + 1);
+        let mut column = 0;
+        for ch in line.chars() {
+            columns.push(column);
+            column += ch.len_utf16() as u32;
+            // Offsets inside a multi-byte character.
+            for _ in 1..ch.len_utf8() {
+                columns.push(column);
+            }
+        }
+        columns.push(column);
+        Utf16Columns { columns: Some(columns) }
+    }
+
+    fn get(&self, byte_index: usize) -> u32 {
+        match &self.columns {
+            None => byte_index as u32,
+            Some(columns) => columns[byte_index.min(columns.len() - 1)],
+        }
+    }
 }
 
 fn get_semantic_tokens(analyzer: &SourceFileAnalyzer) -> SemanticTokens {
@@ -255,12 +285,12 @@ fn get_semantic_tokens(analyzer: &SourceFileAnalyzer) -> SemanticTokens {
     let source_lines = analyzer.source_file_lines();
     for (line_number, line) in analyzer.token_types().iter().enumerate() {
         let mut prev_token_start = 0;
-        let source_line = source_lines[line_number].as_str();
+        let columns = Utf16Columns::new(source_lines[line_number].as_str());
         for (abasic_token_type, range) in line {
             let delta_line = (line_number - prev_line_number) as u32;
             prev_line_number = line_number;
-            let start = byte_index_to_utf16_column(source_line, range.start);
-            let end = byte_index_to_utf16_column(source_line, range.end);
+            let start = columns.get(range.start);
+            let end = columns.get(range.end);
             let delta_start = start - prev_token_start;
             prev_token_start = start;
             let length = end - start;
@@ -287,16 +317,10 @@ fn analyze_source_file(analyzer: &SourceFileAnalyzer) -> Vec<Diagnostic> {
     let source_map = analyzer.source_file_map();
     for message in messages {
         if let Some((line, range)) = source_map.map_to_source(&message) {
-            let source_line = analyzer.source_file_lines()[line].as_str();
+            let columns = Utf16Columns::new(analyzer.source_file_lines()[line].as_str());
             let diag_range = Range::new(
-                Position::new(
-                    line as u32,
-                    byte_index_to_utf16_column(source_line, range.start),
-                ),
-                Position::new(
-                    line as u32,
-                    byte_index_to_utf16_column(source_line, range.end),
-                ),
+                Position::new(line as u32, columns.get(range.start)),
+                Position::new(line as u32, columns.get(range.end)),
             );
             let (severity, content) = match message {
                 DiagnosticMessage::Warning(_line, _loc, msg) => {
